@@ -9,7 +9,7 @@
 #include <stdint.h>
 #include "libwifi.h"
 
-#define ITER 3000
+#define ITER 1500
 static uint64_t fnv(uint64_t h, const void *p, size_t n) { const unsigned char *b = p; for (size_t i = 0; i < n; i++) { h ^= b[i]; h *= 1099511628211ULL; } return h; }
 
 static uint64_t work(int id) {
@@ -21,6 +21,13 @@ static uint64_t work(int id) {
         if (libwifi_create_beacon(&b, a1, a2, a2, ssid, (uint8_t) (j + id)) != 0) return 0;
         unsigned char rsn[] = {1, 0, 0, 0x0f, 0xac, 4, 1, 0, 0, 0x0f, 0xac, (unsigned char) (2 + (j + id) % 10), 1, 0, 0, 0x0f, 0xac, (unsigned char) ((j * 7 + id) % 21), 0, 0};
         libwifi_quick_add_tag(&b.tags, TAG_RSN, rsn, sizeof rsn);
+        /* a legacy WPA element, a WMM and a WPS vendor element whose contents differ per thread and iteration */
+        unsigned char wpa[] = {0x00, 0x50, 0xf2, 1, 1, 0, 0x00, 0x50, 0xf2, (unsigned char) (1 + (id + j) % 5), 2, 0, 0x00, 0x50, 0xf2, (unsigned char) (id % 6), 0x00, 0x50, 0xf2, (unsigned char) (j % 6),
+                               1, 0, 0x00, 0x50, 0xf2, (unsigned char) (1 + (id * 5 + j) % 3)};
+        libwifi_quick_add_tag(&b.tags, TAG_VENDOR_SPECIFIC, wpa, sizeof wpa);
+        unsigned char wmm[] = {0x00, 0x50, 0xf2, 2, (unsigned char) id, 1}, wps[] = {0x00, 0x50, 0xf2, 4, (unsigned char) j};
+        if ((id + j) % 2) libwifi_quick_add_tag(&b.tags, TAG_VENDOR_SPECIFIC, wmm, sizeof wmm);
+        if ((id + j) % 3 == 0) libwifi_quick_add_tag(&b.tags, TAG_VENDOR_SPECIFIC, wps, sizeof wps);
         if (j % 3 == 0) libwifi_set_beacon_channel(&b, (uint8_t) (id * 3 + 1));
         size_t len = libwifi_get_beacon_length(&b);
         unsigned char *buf = malloc(len);
@@ -35,6 +42,15 @@ static uint64_t work(int id) {
                 char s1[LIBWIFI_SECURITY_BUF_LEN], s2[LIBWIFI_SECURITY_BUF_LEN];
                 libwifi_get_security_type(&bss, s1); libwifi_get_auth_key_suites(&bss, s2);
                 h = fnv(h, s1, strlen(s1)); h = fnv(h, s2, strlen(s2));
+                libwifi_get_group_ciphers(&bss, s1); libwifi_get_pairwise_ciphers(&bss, s2);
+                h = fnv(h, s1, strlen(s1)); h = fnv(h, s2, strlen(s2));
+                h = fnv(h, &bss.wps, 1); h = fnv(h, &bss.wpa_info.num_unicast_cipher_suites, 2); h = fnv(h, &bss.wpa_info.num_auth_key_mgmt_suites, 2);
+                h = fnv(h, bss.wpa_info.unicast_cipher_suites, sizeof bss.wpa_info.unicast_cipher_suites);
+                h = fnv(h, bss.wpa_info.auth_key_mgmt_suites, sizeof bss.wpa_info.auth_key_mgmt_suites);
+                h = fnv(h, &bss.rsn_info.num_pairwise_cipher_suites, 2); h = fnv(h, bss.rsn_info.pairwise_cipher_suites, sizeof bss.rsn_info.pairwise_cipher_suites);
+                struct libwifi_tag_iterator it;
+                if (libwifi_tag_iterator_init(&it, bss.tags.parameters, bss.tags.length) == 0)
+                    do { h = fnv(h, &it.tag_header->tag_num, 1); h = fnv(h, it.tag_data, it.tag_header->tag_len); } while (libwifi_tag_iterator_next(&it) != -1);
                 const char *nm = libwifi_get_tag_name(bss.tags.parameters[0]); h = fnv(h, nm, strlen(nm));
             }
             libwifi_free_bss(&bss);
@@ -47,6 +63,36 @@ static uint64_t work(int id) {
         if (libwifi_parse_radiotap_info(&ro, (unsigned char *) rt, rl) == 0) { h = fnv(h, &ro.channel, sizeof ro.channel); h = fnv(h, &ro.timestamp, sizeof ro.timestamp); }
         free(buf);
         libwifi_free_beacon(&b);
+        /* a station-side frame, a reason frame and an action frame */
+        struct libwifi_assoc_req ar;
+        if (libwifi_create_assoc_req(&ar, a1, a2, a2, ssid, (uint8_t) (1 + id)) == 0) {
+            size_t l2 = libwifi_get_assoc_req_length(&ar); unsigned char *b2 = malloc(l2);
+            libwifi_dump_assoc_req(&ar, b2, l2); h = fnv(h, b2, l2);
+            struct libwifi_frame f2; struct libwifi_sta sta;
+            if (libwifi_get_wifi_frame(&f2, b2, l2, 0) == 0) {
+                if (libwifi_parse_assoc_req(&sta, &f2) == 0) { h = fnv(h, sta.ssid, 33); h = fnv(h, sta.bssid, 6); h = fnv(h, &sta.channel, 1); }
+                libwifi_free_sta(&sta);
+            }
+            libwifi_free_wifi_frame(&f2); free(b2); libwifi_free_assoc_req(&ar);
+        }
+        struct libwifi_deauth de;
+        if (libwifi_create_deauth(&de, a1, a2, a2, (uint16_t) (id * 256 + j)) == 0) {
+            size_t l3 = libwifi_get_deauth_length(&de); unsigned char *b3 = malloc(l3);
+            libwifi_dump_deauth(&de, b3, l3); h = fnv(h, b3, l3);
+            struct libwifi_frame f3; struct libwifi_parsed_deauth pd;
+            if (libwifi_get_wifi_frame(&f3, b3, l3, 0) == 0) {
+                if (libwifi_parse_deauth(&pd, &f3) == 0) { h = fnv(h, &pd.fixed_parameters.reason_code, 2); free(pd.tags.parameters); }
+            }
+            libwifi_free_wifi_frame(&f3); free(b3); libwifi_free_deauth(&de);
+        }
+        struct libwifi_action ac;
+        if (libwifi_create_action(&ac, a1, a2, a2, (uint8_t) (id & 15)) == 0) {
+            unsigned char det[5] = {(unsigned char) id, (unsigned char) j, 1, 2, 3};
+            libwifi_add_action_detail(&ac.fixed_parameters.details, det, sizeof det);
+            size_t l4 = libwifi_get_action_length(&ac); unsigned char *b4 = malloc(l4);
+            libwifi_dump_action(&ac, b4, l4); h = fnv(h, b4, l4); free(b4); libwifi_free_action(&ac);
+        }
+        unsigned char rm[6]; libwifi_random_mac(rm, (unsigned char *) "\x0a\x0b\x0c"); h = fnv(h, rm, 3);
     }
     return h;
 }
